@@ -174,6 +174,21 @@ def events_for(darsia, rng, shape, table, h, omode, kind, halo, tid, sample_sing
         back = vc.to_coordinate(cs).to_voxel(cs)
         ev.append(dict(base, tid=tid, op="conv", **{"from": "V", "to": "V"}, form="single-roundtrip-centre",
                        pts=[(4 * v).tolist()], res=[(4 * np.asarray(back)).astype(int).tolist()]))
+    # batches of exactly one point keep the batch layout and the array class of the target kind (a row is not a point)
+    for i in rng.sample(range(len(Pin)), min(2, len(Pin))):
+        def rows(r, cls_):
+            a_ = np.asarray(r)
+            return a_.astype(float) if (type(r) is cls_ and a_.shape == (1, n)) else None
+        r1 = rows(cs.voxel(X[i:i + 1]), darsia.VoxelArray)
+        ev.append(dict(base, tid=tid, op="voxel", form="batch-of-one", pts=[K[i].tolist()], res=r1.astype(int).tolist() if r1 is not None else [[99999999] * n]))
+        r2 = rows(darsia.make_coordinate(X[i:i + 1]).to_voxel(cs), darsia.VoxelArray)
+        ev.append(dict(base, tid=tid, op="voxel", form="batch-of-one-typed", pts=[K[i].tolist()], res=r2.astype(int).tolist() if r2 is not None else [[99999999] * n]))
+        j = rng.randrange(len(V))
+        r3 = rows(cs.coordinate(V[j:j + 1]), darsia.CoordinateArray)
+        ev.append(dict(base, tid=tid, op="coordinate", form="batch-of-one", pts=[(4 * V[j]).tolist()], res=lat(r3) if r3 is not None else [[99999999] * n]))
+        r4 = rows(darsia.make_coordinate(X[i:i + 1]).to_voxel_center(cs), darsia.VoxelCenterArray)
+        if r4 is None:
+            ev.append(dict(base, tid=tid, op="voxel", form="batch-of-one-centre-class", pts=[K[i].tolist()], res=[[99999999] * n]))
     for i in rng.sample(range(len(Pin)), min(sample_single, len(Pin))):
         ev.append(dict(base, tid=tid, op="voxel", form="single-array", pts=[K[i].tolist()], res=[np.asarray(cs.voxel(X[i])).astype(int).tolist()]))
         ev.append(dict(base, tid=tid, op="voxel", form="single-list", pts=[K[i].tolist()], res=[np.asarray(cs.voxel(X[i].tolist())).astype(int).tolist()]))
